@@ -46,6 +46,9 @@ Sig6 == {"valid", "none", "wrongkey", "other", "tampered", "expired", "revoked"}
 KeyClasses == {"valid", "expired", "revoked", "vu_eq", "vu_p1", "ex_eq", "ex_m1"}
 MultiSigs == {"two_keys", "plus_other", "presigned", "presigned_bad"}
 Via4 == {"none", "local", "remote", "invalid"}
+\* rows of R's tables under the identities that are not the member's sender ID (Handshake!View)
+Oth4   == {"none", "ban", "invite", "join"}
+MemOth == {<<"none", "none">>, <<"none", "ban">>, <<"ban", "none">>, <<"ban", "join">>, <<"join", "ban">>}
 
 RoomClasses == {"nonres", "info_err", "info_nil", "nouser", "empty", "listedB", "listed", "listed2", "othertype", "badid"}
 AllowLists ==
@@ -150,7 +153,9 @@ InitInv3 ==
     \E v \in {"org.matrix.msc4014", "12", "10"}, rv \in {"known", "unknown"}, rm \in {"main", "other"}, kn \in BOOLEAN,
        st \in {"none", "empty", "given"}, env \in {"ok", "rq_err", "memq_err"} :
     \E mem \in (IF kn THEN Mem5 ELSE {"none"}) :
-        /\ sc = [Fam(Base(v), "inv3") EXCEPT !.rv = rv, !.known = kn, !.mem = mem, !.stripped = st, !.env = env]
+    \* identities (in the pseudo-ID room: the invited user's room key against its user ID and the other members)
+    \E ot \in (IF kn /\ rv = "known" /\ env = "ok" THEN {"none", "join", "ban"} ELSE {"none"}) :
+        /\ sc = [Fam(Base(v), "inv3") EXCEPT !.rv = rv, !.known = kn, !.mem = mem, !.stripped = st, !.env = env, !.oth = ot]
         /\ net = [k |-> "inv3req", room |-> "main", proom |-> rm]
         /\ phase = "inv3req"
 
@@ -163,11 +168,15 @@ InitInv3 ==
 (* content that must have no effect, empty vs absent lists.                *)
 (***************************************************************************)
 \* make_join: version gate x join rule (also the ones the version does not know) x membership x who asks
+\* (identities: where the restricted-join questions are reached - a well-formed request, a restricted rule - the
+\*  member is in / not in the allowed room and the tables hold the opposite under every other identity: Oth4)
 InitMJV ==
     \E v \in Vers("mjv"), vs \in {"has", "lacks", "none", "empty"},
        jr \in {"public", "invite", "knock", "restricted", "knock_restricted"}, mem \in {"none", "invite", "ban"},
        ou \in {<<"J", "J">>, <<"R", "R">>, <<"N", "J">>, <<"M", "J">>} :
-        /\ sc = [Fam(Base(v), "mjv") EXCEPT !.jr = jr, !.mem = mem, !.pending = (mem = "invite"), !.allow = <<"listed">>]
+    \E ao \in (IF vs = "has" /\ ou = <<"J", "J">> /\ jr \in RestrictedRules
+                THEN {<<"listed">>, <<"nouser">>} \X Oth4 ELSE {<<<<"listed">>, "none">>}) :
+        /\ sc = [Fam(Base(v), "mjv") EXCEPT !.jr = jr, !.mem = mem, !.pending = (mem = "invite"), !.allow = ao[1], !.oth = ao[2]]
         /\ net = MJReq(ou[1], ou[2], vs) /\ phase = "mjreq"
 
 InitMLV ==
@@ -180,8 +189,10 @@ InitSJV ==
     \E v \in Vers("sjv"), sig \in {"valid", "none", "tampered"} \cup MultiSigs, via \in {"none", "local", "remote"},
        os \in {<<"J", "J">>, <<"R", "R">>, <<"N", "J">>, <<"M", "J">>}, t \in {"member", "other"} :
     \E x \in (IF sig = "valid" THEN {"none", "tpi", "unknown", "unsigned"} ELSE {"none"}) :
+    \* identities: the member's own row against the rows of the other members
+    \E mo \in (IF sig = "valid" /\ x = "none" /\ t = "member" THEN MemOth ELSE {<<"none", "none">>}) :
         /\ ~(os[2] = "R" /\ sig \in {"presigned", "presigned_bad"})
-        /\ sc = [Fam(Base(v), "sjv") EXCEPT !.extra = x]
+        /\ sc = [Fam(Base(v), "sjv") EXCEPT !.extra = x, !.mem = mo[1], !.oth = mo[2]]
         /\ net = [k |-> "sjreq", origin |-> os[1], room |-> "main", eid |-> "match",
                   ev |-> Ev(t, "join", os[2], "sender", "main", via, sig)]
         /\ phase = "sjreq"
@@ -190,8 +201,9 @@ InitInvV ==
     \E v \in Vers("invv"), sig \in {"valid", "none", "tampered"} \cup MultiSigs, ss \in {"J", "R"}, m \in {"invite", "join"},
        km \in {<<FALSE, "none">>, <<TRUE, "join">>, <<TRUE, "leave">>}, st \in {"none", "empty", "given"} :
     \E x \in (IF sig = "valid" THEN {"none", "unknown", "unsigned"} ELSE {"none"}) :
+    \E ot \in (IF sig = "valid" /\ x = "none" /\ km[1] THEN {"none", "join", "ban"} ELSE {"none"}) :
         /\ ~(ss = "R" /\ sig \in {"presigned", "presigned_bad"})
-        /\ sc = [Fam(Base(v), "invv") EXCEPT !.known = km[1], !.mem = km[2], !.stripped = st, !.extra = x]
+        /\ sc = [Fam(Base(v), "invv") EXCEPT !.known = km[1], !.mem = km[2], !.stripped = st, !.extra = x, !.oth = ot]
         /\ net = [k |-> "invreq", room |-> "main", ev |-> Ev("member", m, ss, "invitee", "main", "none", sig)]
         /\ phase = "invreq"
 
@@ -199,7 +211,10 @@ InitInvV ==
 InitSJPseudo ==
     \E map \in {"ok", "missing", "unsigned", "wrongkey", "other"}, sig \in {"valid", "none", "tampered"}, o \in {"J", "X"}, ss \in {"J", "X"},
        mem \in {"none", "join", "ban"}, eid \in {"match", "other"}, m \in {"join", "leave"}, uq \in {"ok", "err", "nil"} :
-        /\ sc = [Fam(Base("org.matrix.msc4014"), "sj_pseudo") EXCEPT !.mem = mem, !.map = map, !.uq = uq]
+    \* identities: the row under the join's sender ID (the room key) against the rows under the joiner's user ID and
+    \* under the other members, wherever the sender resolves to a user
+    \E ot \in (IF map = "ok" /\ uq = "ok" THEN {"none", "join", "ban"} ELSE {"none"}) :
+        /\ sc = [Fam(Base("org.matrix.msc4014"), "sj_pseudo") EXCEPT !.mem = mem, !.map = map, !.uq = uq, !.oth = ot]
         /\ net = [k |-> "sjreq", origin |-> o, room |-> "main", eid |-> eid, ev |-> Ev("member", m, ss, "sender", "main", "none", sig)]
         /\ phase = "sjreq"
 
